@@ -30,7 +30,7 @@ from typing import Any
 from sim import histsim, kit, project, runner
 
 PROP = "C10"
-FAMILY = {"H": 600, "P": 300, "L": 60, "I": 400}  # finite scenario families (members are independent of VERIF_SEED)
+FAMILY = {"H": 300, "P": 150, "L": 40, "I": 200}  # finite scenario families (members are independent of VERIF_SEED)
 
 _zygotes: dict[int, subprocess.Popen[str]] = {}
 
